@@ -33,7 +33,7 @@ TRANSLATE = {'modules': [
      'functions': ['Material.attenuation_coefficient'], 'requires': ['Verif.C20.SemExt']},
 ]}
 GEN_FILES = ['GenTables.v']
-RUN_FILES = ['Tie.v', 'Properties.v', 'Corr.v']
+RUN_FILES = ['Tie.v', 'Properties.v', 'Corr.v', 'Pin.v']
 COQ_TIMEOUT = 900
 TRUSTED = [
     'tools/csv2coq.py (CSV lines -> Coq string literals; fail-closed outside printable ASCII; its row split is '
@@ -419,6 +419,13 @@ def atten_correspondence(ctx, rng, n_groups):
 
 def correspondence(ctx):
     rng = random.Random(ctx.seed)
+    if not os.path.exists(os.path.join(ctx.build, 'Corr.vo')):
+        # the model of this run did not compile (obligation already reported as broken): nothing to compare
+        # with inside Coq; search() evaluates the property statement on the implementation instead
+        ctx.note('Run.Corr is not available (an earlier run file failed); the Coq-side comparison is skipped')
+        ctx.coverage.update({'evaluations': 0, 'distinct_nontrivial': 0, 'exhaustive': False,
+                             'rule': 'correspondence skipped: the run files did not compile', 'samples': []})
+        return
     lk = lookup_correspondence(ctx, rng)
     at = atten_correspondence(ctx, rng, 150 if ctx.tier == 'quick' else 3000)
     if lk['type_error_rejections']:
